@@ -26,6 +26,7 @@ import (
 	"path"
 	"path/filepath"
 	"runtime"
+	"syscall"
 	"time"
 
 	"github.com/caddyserver/certmagic/internal/atomicfile"
@@ -74,7 +75,7 @@ type FileStorage struct {
 // Exists returns true if key exists in s.
 func (s *FileStorage) Exists(_ context.Context, key string) bool {
 	_, err := os.Stat(s.Filename(key))
-	return !errors.Is(err, fs.ErrNotExist)
+	return !errors.Is(keyNotExist(err), fs.ErrNotExist)
 }
 
 // Store saves value at key.
@@ -105,14 +106,18 @@ func (s *FileStorage) Load(_ context.Context, key string) ([]byte, error) {
 	// bytes read + error is a valid response (it should not be)
 	xs, err := os.ReadFile(s.Filename(key))
 	if err != nil {
-		return nil, err
+		return nil, keyNotExist(err)
 	}
 	return xs, nil
 }
 
 // Delete deletes the value at key.
 func (s *FileStorage) Delete(_ context.Context, key string) error {
-	return os.RemoveAll(s.Filename(key))
+	err := os.RemoveAll(s.Filename(key))
+	if errors.Is(keyNotExist(err), fs.ErrNotExist) {
+		return nil // nothing to delete
+	}
+	return err
 }
 
 // List returns all keys that match prefix.
@@ -146,14 +151,14 @@ func (s *FileStorage) List(ctx context.Context, prefix string, recursive bool) (
 		return nil
 	})
 
-	return keys, err
+	return keys, keyNotExist(err)
 }
 
 // Stat returns information about key.
 func (s *FileStorage) Stat(_ context.Context, key string) (KeyInfo, error) {
 	fi, err := os.Stat(s.Filename(key))
 	if err != nil {
-		return KeyInfo{}, err
+		return KeyInfo{}, keyNotExist(err)
 	}
 	return KeyInfo{
 		Key:        key,
@@ -161,6 +166,17 @@ func (s *FileStorage) Stat(_ context.Context, key string) (KeyInfo, error) {
 		Size:       fi.Size(),
 		IsTerminal: !fi.IsDir(),
 	}, nil
+}
+
+// keyNotExist makes the error for a key that lies below a regular file
+// (ENOTDIR on Unix-like systems: "a/b" when "a" is a file) satisfy
+// errors.Is(err, fs.ErrNotExist), like the error for any other missing
+// key, as the Storage contract requires (and as Windows already reports it).
+func keyNotExist(err error) error {
+	if errors.Is(err, syscall.ENOTDIR) {
+		return fmt.Errorf("%w: %w", fs.ErrNotExist, err)
+	}
+	return err
 }
 
 // Filename returns the key as a path on the file
